@@ -114,6 +114,10 @@ class BarrelList(list):
             if rel_idx < len_list:
                 break
             rel_idx -= len_list
+        else:
+            # at or past the end: point at the end of the last sub-list
+            # (what insert() and slice bounds mean), not at its front
+            rel_idx += len_list
         if rel_idx < 0:
             return None, None
         return list_idx, rel_idx
